@@ -1,8 +1,8 @@
 #!/bin/bash
 # usage: tools/round3.sh <Cxx> <slot>   — confirm the round-3 change of <Cxx> in its worktree, then run the owning quick check
 # against it on the scratch copy /tmp/ms<slot> (tools/mutant_scratch.sh). Output: /tmp/mut/<Cxx>-out/round3.log
-id="$1"; slot="${2:-0}"; i=5
-log=/tmp/mut/$id-out/round3.log
+id="$1"; slot="${2:-0}"; i=${IDX:-5}
+log=/tmp/mut/$id-out/round$i.log
 {
 if [ -d /tmp/mut/$id-out/m${i}_demo ]; then /verif/tools/confirm_mutant_pkg.sh $id $i; else /verif/tools/confirm_mutant.sh $id $i; fi
 if [ -f /verif/seeded/$id-m$i/patch.diff ]; then
